@@ -118,18 +118,21 @@ def emit(fam, p):
     plain_elems = ", ".join(p["plain"])
     plain_src = """use crate::util::Tok;
 %s
-pub fn run(v: %s) -> ([Option<Tok>; %d], [u32; %d]) {
+pub fn run(v: %s) -> ([Option<Tok>; %d], [u32; %d], [u8; %d]) {
     %s
+    // ledger snapshot taken immediately after the macro statement: `_` / `..` elements must be gone by now
+    let snap: [u8; %d] = [%s];
     %s
-    ([%s], [%s])
+    ([%s], [%s], snap)
 }
-""" % (p["type_defs"], p["ty"], n, len(p["plain"]), p["inv"], p["post"], out_elems, plain_elems)
+""" % (p["type_defs"], p["ty"], n, len(p["plain"]), n, p["inv"], n, ", ".join("drops(%d)" % i for i in range(n)), p["post"], out_elems, plain_elems)
     # in the acceptance crate there is no crate::util: provide a local Tok there
-    plain_src = plain_src.replace("use crate::util::Tok;", "#[cfg(kani)]\nuse crate::util::Tok;\n#[cfg(not(kani))]\n#[derive(Debug)]\npub struct Tok(pub u8, pub u16);\n#[cfg(not(kani))]\nimpl Drop for Tok { fn drop(&mut self) {} }")
+    plain_src = plain_src.replace("use crate::util::Tok;", "#[cfg(kani)]\nuse crate::util::{Tok, drops};\n#[cfg(not(kani))]\n#[derive(Debug)]\npub struct Tok(pub u8, pub u16);\n#[cfg(not(kani))]\nimpl Drop for Tok { fn drop(&mut self) {} }\n#[cfg(not(kani))]\nfn drops(_: usize) -> u8 { 0 }")
     mk_t = "\n        ".join("let t%d = Tok(%d, pay[%d]);" % (i, i, i) for i in range(n))
     mk_p = "\n        ".join("let p%d: u32 = kani::any();" % j for j in range(m))
     checks = []
     for i in range(n):
+        checks.append("assert!(snap[%d] == %d);" % (i, 0 if p["binds"].get(i) else 1))
         if p["binds"].get(i):
             checks.append("match &out[%d] { Some(t) => assert!(t.0 == %d && t.1 == pay[%d] && drops(%d) == 0), None => assert!(false) }" % (i, i, i, i))
         else:
@@ -143,7 +146,7 @@ pub fn run(v: %s) -> ([Option<Tok>; %d], [u32; %d]) {
         %s
         %s
         let v: %s = %s;
-        let (out, plain) = run(v);
+        let (out, plain, snap) = run(v);
         %s
         drop(out);
         // after the caller dropped what it was handed: every token exactly once
